@@ -1,7 +1,7 @@
 #!/usr/bin/env python3
 # Applies each seeded change to /repo, runs the target property's check (quick), records the outcome, reverts.
 # usage: tools/run_seeded.py [ids...] [--all-props]
-import json, os, subprocess, sys, time
+import json, os, shutil, subprocess, sys, time
 V = os.path.dirname(os.path.dirname(os.path.abspath(__file__)))
 REPO = "/repo"
 sys.path.insert(0, os.path.join(V, "tools"))
@@ -27,7 +27,15 @@ for sid in ids:
             if p not in props.PROPS:
                 out[p] = "no check yet"; continue
             t = time.time()
-            c = subprocess.run([os.path.join(V, "bin", "check"), p, "quick"], capture_output=True, text=True, cwd=V)
+            # the evidence file must describe the unchanged tree: keep it aside while the check runs on the changed one
+            ev = os.path.join(V, "evidence", p + ".json"); bak = ev + ".keep"
+            if os.path.exists(ev):
+                shutil.copy(ev, bak)
+            try:
+                c = subprocess.run([os.path.join(V, "bin", "check"), p, "quick"], capture_output=True, text=True, cwd=V)
+            finally:
+                if os.path.exists(bak):
+                    shutil.move(bak, ev)
             v = [l for l in c.stdout.splitlines() if l.startswith("VIOLATION")]
             what = [l for l in c.stderr.splitlines() if l.startswith("[")]
             out[p] = {"exit": c.returncode, "violations": v[:2], "what": what[:2], "s": round(time.time() - t)}
@@ -35,4 +43,7 @@ for sid in ids:
         print(sid, json.dumps(out)[:700])
     finally:
         subprocess.run(["git", "-C", REPO, "checkout", "--", "."], check=True)
-json.dump(res, open(os.path.join(V, "work", "seeded_results.json"), "w"), indent=1)
+rp = os.path.join(V, "work", "seeded_results.json")
+allres = json.load(open(rp)) if os.path.exists(rp) else {}
+allres.update(res)
+json.dump(allres, open(rp, "w"), indent=1)
